@@ -190,6 +190,12 @@ func calleeShortName(cc *ssa.CallCommon) string {
 			st := structFields(fa.X.Type().Underlying().(*types.Pointer).Elem())
 			return st.Field(fa.Field).Name()
 		}
+		if fv, ok := v.X.(*ssa.FreeVar); ok {
+			return fv.Name() // call through a captured func variable
+		}
+		if al, ok := v.X.(*ssa.Alloc); ok && al.Comment != "" {
+			return al.Comment // call through a local func variable
+		}
 	case *ssa.Field:
 		st := structFields(v.X.Type())
 		return st.Field(v.Field).Name()
